@@ -116,12 +116,16 @@ def build_model(prog, values=None) -> Wires:
 
 def snapshot(c) -> tuple:
     """Observable state of a real circuit (used by 'unchanged' oracles)."""
-    U = c.U_full
+    try:
+        U = c.U_full
+        ushape, ubytes = U.shape, np.ascontiguousarray(U).tobytes()
+    except Exception as e:  # noqa: BLE001  (a circuit that no longer compiles is also a state)
+        ushape, ubytes = ("uncompilable", type(e).__name__), b""
     h = c.heralds
     return (
         c.n_modes, c.input_modes,
         tuple(sorted(h["input"].items())), tuple(sorted(h["output"].items())),
-        U.shape, np.ascontiguousarray(U).tobytes(),
+        ushape, ubytes,
         len(c._get_circuit_spec()), tuple(c._internal_modes),
     )
 
